@@ -574,21 +574,146 @@ theorem loop_assign (n : List Char) (v : Word) (next : List Char)
   simp [parseSimpleLoop, hr, ht, isKeywordWord_assignWord, hb, assignOf_assignWord n v h1 h2, h3, h4]
 
 
+/-! ## Array assignments `name=(w₁ … wₙ)` -/
+
+theorem lexToken_op_char (e : Char) (tail : List Char) (o : Op) (he : e ≠ '\\' ∧ isBlank e = false ∧ e ≠ '#')
+    (ho : lexOperator (e :: tail) = some (o, tail)) (sp : Bool) :
+    lexToken ((if sp then [' '] else []) ++ e :: tail) = some (⟨[], .op o⟩, tail) := by
+  have hk := skipLC_cons_ne e tail he.1
+  have hsb : skipBlanks ((if sp then [' '] else []) ++ e :: tail).length
+      ((if sp then [' '] else []) ++ e :: tail) = e :: tail := by
+    cases sp with
+    | false => simpa using skipBlanks_stop e tail hk he.2.1 _
+    | true =>
+      have := skipBlanks_pre true e tail hk he.2.1 (([' '] ++ e :: tail).length) (by simp)
+      simpa using this
+  unfold lexToken
+  simp only []
+  rw [hsb, skipComment_id e tail hk he.2.2, ho]
+
+/-- the printed words of an array value -/
+def printArrayWords (ws : List Word) : List Char := joinWith [' '] (ws.map printWord)
+
+/-- the words of an array value, given the text after the closing parenthesis -/
+def ArrWordsOk : List Word → List Char → Prop
+  | [], _ => True
+  | [w], next => TokWordOk w (')' :: next)
+  | w :: v :: ws, next => TokWordOk w (' ' :: (printArrayWords (v :: ws) ++ ')' :: next)) ∧ ArrWordsOk (v :: ws) next
+
+theorem nextOk_rparen (x : List Char) : NextOk (')' :: x) :=
+  ⟨⟨')', x, rfl, ⟨by decide, by decide⟩⟩, by simp [nextIsAngle, skipLC_cons_ne]⟩
+
+theorem nextOk_space (x : List Char) : NextOk (' ' :: x) :=
+  ⟨⟨' ', x, rfl, ⟨by decide, by decide⟩⟩, by simp [nextIsAngle, skipLC_cons_ne]⟩
+
+theorem printArrayWords_cons2 (w v : Word) (ws : List Word) :
+    printArrayWords (w :: v :: ws) = printWord w ++ ' ' :: printArrayWords (v :: ws) := by
+  simp [printArrayWords, joinWith]
+
+/-- `Parser::array_values` after the opening parenthesis reads the printed words back -/
+theorem arrWords_rt (next : List Char) :
+    ∀ (ws : List Word) (fuel : Nat) (sp : Bool), ws.length + 1 ≤ fuel → (ws = [] → sp = false) →
+      ArrWordsOk ws next →
+      parseArrayWords fuel ((if sp then [' '] else []) ++ (printArrayWords ws ++ ')' :: next)) = some (ws, next) := by
+  intro ws
+  induction ws with
+  | nil =>
+    intro fuel sp hf hsp _
+    obtain ⟨k, rfl⟩ : ∃ k, fuel = k + 1 := ⟨fuel - 1, by simp at hf; omega⟩
+    have hl := lexToken_op_char ')' next .closeParen ⟨by decide, by decide, by decide⟩
+      (by simp [lexOperator, skipLC_cons_ne]) false
+    simp only [Bool.false_eq_true, if_false, List.nil_append] at hl
+    simp [hsp rfl, printArrayWords, joinWith, parseArrayWords, hl]
+  | cons w ws ih =>
+    intro fuel sp hf _ hok
+    obtain ⟨k, rfl⟩ : ∃ k, fuel = k + 1 := ⟨fuel - 1, by simp at hf; omega⟩
+    cases ws with
+    | nil =>
+      have hw : TokWordOk w (')' :: next) := hok
+      have ht := lexToken_word w _ hw (nextOk_rparen next) sp
+      have hl := lexToken_op_char ')' next .closeParen ⟨by decide, by decide, by decide⟩
+        (by simp [lexOperator, skipLC_cons_ne]) false
+      simp only [Bool.false_eq_true, if_false, List.nil_append] at hl
+      obtain ⟨j, rfl⟩ : ∃ j, k = j + 1 := ⟨k - 1, by simp at hf; omega⟩
+      simp [printArrayWords, joinWith, parseArrayWords, ht, hl]
+    | cons v vs =>
+      obtain ⟨hw, hrest⟩ := hok
+      have ht := lexToken_word w _ hw (nextOk_space _) sp
+      have ih' := ih k true (by simp at hf ⊢; omega) (by intro e; cases e) hrest
+      simp only [if_true, List.singleton_append] at ih'
+      rw [printArrayWords_cons2]
+      simp only [List.append_assoc, List.cons_append]
+      rw [parseArrayWords]
+      rw [ht]
+      simp [ih']
+
+theorem arrWords_length (next : List Char) : ∀ ws : List Word, ArrWordsOk ws next →
+    ws.length ≤ (printArrayWords ws).length := by
+  intro ws
+  induction ws with
+  | nil => intro _; simp
+  | cons w ws ih =>
+    intro h
+    cases ws with
+    | nil =>
+      have hw : TokWordOk w (')' :: next) := h
+      have := printWord_ne_nil _ _ w _ hw.ok hw.nonempty
+      cases hp : printWord w with
+      | nil => exact absurd hp this
+      | cons _ _ => simp [printArrayWords, joinWith, hp]
+    | cons v vs =>
+      have := ih h.2
+      rw [printArrayWords_cons2]
+      simp only [List.length_cons, List.length_append] at this ⊢
+      omega
+
+/-- the text of an array assignment -/
+def printArrayAssign (n : List Char) (ws : List Word) : List Char :=
+  n ++ '=' :: '(' :: (printArrayWords ws ++ [')'])
+
+theorem loop_arrayAssign (n : List Char) (ws : List Word) (next : List Char)
+    (hw : TokWordOk (assignWord n []) ('(' :: (printArrayWords ws ++ ')' :: next)))
+    (sp : Bool) (b : Builder) (fuel : Nat)
+    (hb : b.words = []) (h1 : '=' ∉ n) (h2 : n ≠ []) (hws : ArrWordsOk ws next) :
+    parseSimpleLoop (fuel + 1) b ((if sp then [' '] else []) ++ (printArrayAssign n ws ++ next)) =
+      parseSimpleLoop fuel { b with assigns := b.assigns ++ [⟨n, .array ws⟩] } next := by
+  have hn : NextOk ('(' :: (printArrayWords ws ++ ')' :: next)) :=
+    ⟨⟨'(', _, rfl, ⟨by decide, by decide⟩⟩, by simp [nextIsAngle, skipLC_cons_ne]⟩
+  have ht := lexToken_word _ _ hw hn sp
+  have hr := parseRedir_word _ _ hw hn sp
+  rw [printWord_assignWord] at ht hr
+  simp only [printWord, List.append_assoc, List.cons_append, List.nil_append] at ht hr
+  have hlp := lexToken_op_char '(' (printArrayWords ws ++ ')' :: next) .openParen
+    ⟨by decide, by decide, by decide⟩ (by simp [lexOperator, skipLC_cons_ne]) false
+  simp only [Bool.false_eq_true, if_false, List.nil_append] at hlp
+  have hlen := arrWords_length next ws hws
+  have ha := arrWords_rt next ws ((printArrayWords ws ++ ')' :: next).length + 2) false
+    (by simp only [List.length_append, List.length_cons]; omega) (fun _ => rfl) hws
+  simp only [Bool.false_eq_true, if_false, List.nil_append, List.length_append, List.length_cons] at ha
+  have hx : printArrayAssign n ws ++ next = n ++ '=' :: '(' :: (printArrayWords ws ++ ')' :: next) := by
+    simp [printArrayAssign]
+  rw [hx]
+  simp [parseSimpleLoop, hr, ht, isKeywordWord_assignWord, hb, assignOf_assignWord n [] h1 h2, hasUnquotedTilde,
+    arrayFollows, skipLC_cons_ne, hlp, ha]
+
 /-- the printed pieces of a simple command -/
 inductive Piece
   | assign (name : List Char) (v : Word)
   | word (w : Word)
   | redir (fd : Option Nat) (op : RedirOp) (w : Word)
+  | arrayAssign (name : List Char) (ws : List Word)
 
 def Piece.print : Piece → List Char
   | .assign n v => n ++ '=' :: printWord v
   | .word w => printWord w
   | .redir fd op w => printRedir (.normal fd op w)
+  | .arrayAssign n ws => printArrayAssign n ws
 
 def Builder.push (b : Builder) : Piece → Builder
   | .assign n v => { b with assigns := b.assigns ++ [⟨n, .scalar v⟩] }
   | .word w => { b with words := b.words ++ [w] }
   | .redir fd op w => { b with redirs := b.redirs ++ [.normal fd op w] }
+  | .arrayAssign n ws => { b with assigns := b.assigns ++ [⟨n, .array ws⟩] }
 
 /-- what the parser needs to know about a piece, given the builder state and the text that follows -/
 def PieceOk (b : Builder) : Piece → List Char → Prop
@@ -600,6 +725,9 @@ def PieceOk (b : Builder) : Piece → List Char → Prop
       (b.words = [] → assignOf w = none ∧ (isKeywordWord w = true → b.isEmpty = false)) ∧
       (b.words ≠ [] → (hasUnquotedTilde w && (assignOf w).isSome) = false)
   | .redir fd _ w, next => FdOk fd ∧ TokWordOk w next
+  | .arrayAssign n ws, next =>
+    b.words = [] ∧ TokWordOk (assignWord n []) ('(' :: (printArrayWords ws ++ ')' :: next)) ∧ '=' ∉ n ∧ n ≠ [] ∧
+      ArrWordsOk ws next
 
 def printPieces (ps : List Piece) : List Char := joinWith [' '] (ps.map Piece.print)
 
@@ -664,6 +792,9 @@ theorem loop_pieces (e : Char) (he : TermOk e) (rest : List Char) :
     | redir fd op w =>
       obtain ⟨h1, h2⟩ := hp
       exact loop_redir fd h1 op w _ h2 hn sp b k
+    | arrayAssign n ws =>
+      obtain ⟨h0, h1, h2, h3, h4⟩ := hp
+      exact loop_arrayAssign n ws _ h1 sp b k h0 h2 h3 h4
 
 
 /-- a simple command with scalar assignments and normal redirections -/
